@@ -500,3 +500,28 @@ Proof.
     + constructor; [|constructor]. destruct Hl as [Hin| ->]; [|exact (ff_inside_eof _ _ F)].
       pose proof (ff_inside_toks _ _ F) as T. rewrite Forall_forall in T. exact (T p Hin).
 Qed.
+
+(** ** layout, stated on the two specifications alone: two texts of the lexical grammar whose Token
+    sequences agree in kind and text are both documents of the grammar or neither is, and their
+    trees are equal once positions are erased *)
+Lemma same_shape_of_tokens : forall ts1 ts2,
+  Forall2 same_token_text (map st_tok ts1) (map st_tok ts2) -> Forall2 same_shape ts1 ts2.
+Proof.
+  induction ts1 as [|a l IH]; intros [|b m] H; cbn [map] in H; inversion H; subst; constructor.
+  - assumption.
+  - apply IH. assumption.
+Qed.
+
+Theorem parse_bytes_same_tokens_same_tree bs1 bs2 toks1 toks2 d1 :
+  lexes_to bs1 toks1 -> lexes_to bs2 toks2 -> Forall2 same_token_text toks1 toks2 ->
+  in_grammar_bytes bs1 d1 ->
+  exists d2, in_grammar_bytes bs2 d2 /\ erase_document d2 = erase_document d1.
+Proof.
+  intros L1 L2 S G. apply parse_bytes_accepts_exactly in G.
+  destruct (front_end_total bs1) as (r1 & H1 & _). destruct (front_end_total bs2) as (r2 & H2 & _).
+  destruct (front_end_lexes bs1 r1 H1) as [_ T1]. destruct (front_end_lexes bs2 r2 H2) as [X2 T2].
+  rewrite <- (T1 _ L1), <- (T2 _ L2) in S. apply same_shape_of_tokens in S.
+  assert (E2 : scanner_errors (f_eof_errs r2) (f_toks r2) = []) by (apply X2; exists toks2; exact L2).
+  destruct (parse_bytes_layout_insensitive _ _ _ _ _ H1 H2 S E2 G) as (d2 & P2 & Er).
+  exists d2. split; [apply parse_bytes_accepts_exactly; exact P2|exact Er].
+Qed.
